@@ -159,9 +159,9 @@ def run(tier, seed, replay):
     if rc != 0:
         rep.violation("harness-build", dict(what="sim harness does not build", log=out[-2000:]), False)
         return rep.finish()
-    kws = [dict(max_size=1, rel=True, weights=dict(drop=1.5, sop=7.0)), dict(max_size=30, rel=True, weights=dict(drop=1.5)), dict(max_size=60, track=True, rel=True),
+    kws = [dict(max_size=1, burst=0.1), dict(max_size=1, rel=True, burst=0.08, weights=dict(drop=1.5, sop=7.0)), dict(max_size=30, rel=True, weights=dict(drop=1.5)), dict(max_size=60, track=True, rel=True),
            dict(max_size=1, nclients=2, track=True), dict(max_size=1, rel=True, policy="black", nclients=2)]
-    o2, d2 = simcheck.sim_collect(rep, "C10", tier, rng, seed, kws, 160, 4000, oracle_props={"C10", "C02"},
+    o2, d2 = simcheck.sim_collect(rep, "C10", tier, rng, seed, kws, 160, 16000, oracle_props={"C10", "C02"},
                                   rule_extra=", tiny per-client max message sizes so that every tick's mutations are split, with mutate messages dropped and reordered, and a relationship registered with "
                                   "sync_related_entities set / replaced / cleared between entities (related entities must share a mutate message)")
     if o2 and not oracle_fail:
